@@ -98,6 +98,10 @@ impl<'a, K, M> PoolValuesFiltered<'a, K, M> {
         requires forall|w: &'a WorkerProperties<K, M>| f.requires((w,)),
     { unimplemented!() }
 }
+/// `Option::is_some_and` (std): None => false, Some(x) => f(x)
+pub assume_specification<T, F: FnOnce(T) -> bool>[ Option::<T>::is_some_and ](o: Option<T>, f: F) -> (r: bool)
+    requires o matches Some(x) ==> f.requires((x,)),
+    ensures o is None ==> !r, o matches Some(x) ==> f.ensures((x,), r);
 /// A-std: derive(PartialEq) on the fieldless enum DrainState
 pub assume_specification [<DrainState as PartialEq>::eq] (a: &DrainState, b: &DrainState) -> (r: bool)
     ensures r == (*a == *b);
@@ -134,8 +138,14 @@ pub mod vocab {
         /// a statistics callback recorded that job `id` was refused for `reason`; the flag says whether the job still carried its
         /// acceptance port (ghost arguments supplied at the call site, unit routenext)
         Stat(DiscardReason, int, bool),
+        /// a replacement worker actor was spawned for slot `wid` (did the start-up succeed) -- unit respawn
+        SpawnWorker(usize, bool),
+        /// WorkerProperties::replace_worker on slot `wid`: the new worker actor `a` takes the slot over (contract: unit worker)
+        ReplaceWorker(usize, int),
+        /// actor id `a` now maps to worker `wid` in the actor -> worker index
+        IndexInsert(int, usize),
     }
-    pub enum Kind { DiscardTtl, DiscardLoadshed, DiscardRateLimited, DiscardShutdown, Accepted, Rejected, WorkerComplete, PoolRemove, IndexRemove, StopActor, SetDraining, RouterAvail, RouteNext, StatPort, StatNoPort }
+    pub enum Kind { DiscardTtl, DiscardLoadshed, DiscardRateLimited, DiscardShutdown, Accepted, Rejected, WorkerComplete, PoolRemove, IndexRemove, StopActor, SetDraining, RouterAvail, RouteNext, StatPort, StatNoPort, SpawnWorker, ReplaceWorker, IndexInsert }
     pub open spec fn kind_of(e: Effect) -> Kind {
         match e {
             Effect::Discard(DiscardReason::TtlExpired, _) => Kind::DiscardTtl,
@@ -152,6 +162,9 @@ pub mod vocab {
             Effect::RouterAvail(_, _) => Kind::RouterAvail,
             Effect::RouteNext(_) => Kind::RouteNext,
             Effect::Stat(_, _, p) => if p { Kind::StatPort } else { Kind::StatNoPort },
+            Effect::SpawnWorker(_, _) => Kind::SpawnWorker,
+            Effect::ReplaceWorker(_, _) => Kind::ReplaceWorker,
+            Effect::IndexInsert(_, _) => Kind::IndexInsert,
         }
     }
     }
